@@ -258,6 +258,11 @@ def assign_targets(X, ast, ev):
             v = ev.ev(args[0])
             return [((kk, v.ty), v.t) for kk in ('mdom', 'mval', 'msize')]
         if name == 'cell':
+            if args[0][0] == 'id' and not isinstance(ev.env.get(args[0][1]), LValue):
+                v = ev.ev(args[0])      # a pointer-typed parameter: the cell it points to
+                uk, e = w.prog.under(v.ty)
+                if e['kind'] == 'ptr':
+                    return [(('cell', e['elem']), v.t)]
             v = X_lvalue(ev, args[0])
             return [(('cell', v.data[0]), v.data[1])]
         if name == 'global':
